@@ -146,10 +146,11 @@ class Inst:
     """one harness instance = one goto program = one family of solver queries."""
     def __init__(self, id, props, harness, entry, tus=(), defs=(), stubs=(), unwind=3, unwindset=(),
                  backends=("z3", "sat"), timeout=120, tier="quick", objbits=12, mem_gb=16,
-                 bounds="", inputs="", c_sources=(), nounwind_assert=False, extra_cbmc=(), ub=True, desc="", model_unwind=17):
+                 bounds="", inputs="", c_sources=(), nounwind_assert=False, extra_cbmc=(), ub=True, desc="", model_unwind=17, short_strings=True):
         self.model_unwind = model_unwind
         self.rest_backends = ["sat"]
         self.long_unwind = 66
+        self.short_strings = short_strings
         self.id = id; self.props = list(props); self.harness = harness; self.entry = entry
         self.tus = list(tus); self.defs = list(defs); self.stubs = list(stubs)
         self.unwind = unwind; self.unwindset = list(unwindset); self.backends = list(backends)
@@ -170,6 +171,11 @@ CONTAINER_STUBS = ["_ZN4bloc10CollectionC2ERKS0_", "_ZN4bloc10CollectionD0Ev", "
                    "_ZN4bloc5TupleC2EOSt6vectorINS_5ValueESaIS2_EE", "_ZN4bloc5TupleC2ERKS0_", "_ZN4bloc5TupleD0Ev", "_ZN4bloc5TupleD2Ev",
                    "_ZN4bloc7ComplexC2EOS0_", "_ZN4bloc7ComplexC2ERKS0_", "_ZN4bloc7ComplexC2EtPv", "_ZN4bloc7ComplexD2Ev"]
 SCALAR_STUBS = FMT_STUBS + CTX_STUBS + CONTAINER_STUBS
+# loops over the item types of a tuple declaration (vector<Type>): kernels that only handle scalar symbols have
+# empty declarations, so one unwinding (checked by the unwinding assertion) is enough
+EMPTY_DECL_UNWIND = ["_ZNSt12_Destroy_auxILb0EE9__destroyIPN4bloc4TypeEEEvT_S5_.0:1",
+                     "_ZSt16__do_uninit_copyIN9__gnu_cxx17__normal_iteratorIPKN4bloc4TypeESt6vectorIS3_SaIS3_EEEEPS3_ET0_T_SC_SB_.0:1",
+                     "_ZSt16__do_uninit_copyIPN4bloc4TypeES2_ET0_T_S4_S3_.0:1"]
 
 def build_instance(inst, kfdir, workdir):
     """returns path of the goto binary (without main; main is linked per run mode)."""
@@ -199,7 +205,7 @@ def build_instance(inst, kfdir, workdir):
     csrc = [gen] + msrcs + [os.path.join(VERIF, c) for c in inst.c_sources]
     for c in csrc:
         o = os.path.join(workdir, os.path.basename(c)[:-2] + ".go")
-        r = sh(["goto-cc", "-I" + MODEL_DIR, "-I" + kfdir, "-c", c, "-o", o], cwd=workdir, env=dict(os.environ, TMPDIR=workdir))
+        r = sh(["goto-cc", "-I" + MODEL_DIR, "-I" + kfdir] + (["-DVX_SHORT_ONLY"] if inst.short_strings else []) + ["-c", c, "-o", o], cwd=workdir, env=dict(os.environ, TMPDIR=workdir))
         if r.returncode != 0 or not os.path.exists(o):
             raise BuildError("goto-cc %s: %s" % (c, r.stdout[-4000:]))
         objs.append(o)
